@@ -44,6 +44,8 @@ a4a3235 C18
 36d3401 C13
 f63dd05 C18
 369895b C12
+3b2934b C12
+3ab4ce6 C19
 REV
 grep -E "$FILTER" "$list" > "$list.f"
 run_one() {
